@@ -57,7 +57,7 @@ impl Cfg {
             base_offset: rng.gen_range(0..50),
             max_rewinds: rng.gen_range(0..=2),
             avoid_f1: rng.gen_bool(0.85),
-            max_creates: rng.gen_range(3..9),
+            max_creates: rng.gen_range(4..12),
         }
     }
 
